@@ -86,6 +86,10 @@ pub fn mark_job_as_running(sh: &mut shell::Shell, gid: i32, bg: bool) {
 
 #[allow(unreachable_patterns)]
 pub fn waitpidx(wpid: i32, block: bool) -> types::WaitStatus {
+    #[cfg(cicada_verif)]
+    if let Some(ws) = verif_hooks::next_injected(block) {
+        return ws;
+    }
     let options = if block {
         Some(WF::WUNTRACED | WF::WCONTINUED)
     } else {
@@ -233,6 +237,52 @@ pub fn try_wait_bg_jobs(sh: &mut shell::Shell, report: bool, sig_handler_enabled
             } else if signals::pop_cont_map(*pid) {
                 mark_job_member_continued(sh, *pid, job.gid);
             }
+        }
+    }
+}
+
+#[cfg(cicada_verif)]
+pub mod verif_hooks {
+    use std::collections::VecDeque;
+    use std::sync::Mutex;
+    use crate::types::WaitStatus;
+
+    lazy_static! {
+        static ref INJECTED: Mutex<Option<VecDeque<WaitStatus>>> = Mutex::new(None);
+    }
+
+    /// Switch wait-status injection on (Some(queue)) or off (None).
+    pub fn set_injected(q: Option<Vec<WaitStatus>>) {
+        *INJECTED.lock().unwrap() = q.map(|v| v.into_iter().collect());
+    }
+
+    pub fn push_injected(ws: WaitStatus) {
+        if let Some(q) = INJECTED.lock().unwrap().as_mut() {
+            q.push_back(ws);
+        }
+    }
+
+    pub fn injected_left() -> usize {
+        INJECTED.lock().unwrap().as_ref().map_or(0, |q| q.len())
+    }
+
+    /// None: injection is off, use the real waitpid.
+    /// Some(ws): the next queued status; an empty queue answers ECHILD for
+    /// a blocking wait and "still alive" for a non-blocking one.
+    pub fn next_injected(block: bool) -> Option<WaitStatus> {
+        let mut g = INJECTED.lock().unwrap();
+        match g.as_mut() {
+            None => None,
+            Some(q) => match q.pop_front() {
+                Some(ws) => Some(ws),
+                None => {
+                    if block {
+                        Some(WaitStatus::from_error(nix::Error::ECHILD as i32))
+                    } else {
+                        Some(WaitStatus::empty())
+                    }
+                }
+            },
         }
     }
 }
